@@ -232,6 +232,18 @@ func record(c *chainCase, partName string) {
 	if len(c.Recv) == 0 {
 		add("no-receive-filters")
 	}
+	if len(c.Broken) > 0 {
+		add("unbuildable-entry-in-the-filter-list")
+	}
+	if c.Repush != "" {
+		add("listener-config-delivered-again:" + c.Repush)
+		if len(c.Broken) > 0 {
+			add("listener-config-delivered-again:with-unbuildable-entry")
+		}
+		if c.RepushAt == 1 {
+			add("listener-config-delivered-again:between-requests")
+		}
+	}
 	ev.Case(partName, nonTriv, c.canonical(), func() interface{} { return c }, classes...)
 }
 
@@ -381,6 +393,10 @@ func execute(t ev.TB, c *chainCase) ([]string, []observed) {
 	delays := map[string]time.Duration{}
 	retryFirst := map[string]bool{}
 	for r, rq := range c.Reqs {
+		if r == 1 && repushHook != nil {
+			repushHook() // the listener's configuration is delivered again between two requests
+			repushHook = nil
+		}
 		delays[tokens[r]] = time.Duration(rq.UpDelayUs) * time.Microsecond
 		retryFirst[tokens[r]] = rq.UpRetry && c.RetryOn
 	}
@@ -417,6 +433,28 @@ func execute(t ev.TB, c *chainCase) ([]string, []observed) {
 	for j := 0; j < c.Send; j++ {
 		filters = append(filters, v2.Filter{Type: filterType, Config: map[string]interface{}{"case": cid, "kind": "send", "index": j}})
 	}
+	// entries that cannot be built, at their configured positions (generation 0; a "touched" re-push changes only them)
+	withBroken := func(gen int) []v2.Filter {
+		out := []v2.Filter{}
+		for pos := 0; pos <= len(filters); pos++ {
+			for k, b := range c.Broken {
+				if b.At == pos || (pos == len(filters) && b.At > pos) {
+					if b.Kind == "unknown" {
+						out = append(out, v2.Filter{Type: "c14_type_nobody_registered", Config: map[string]interface{}{"n": k, "generation": gen}})
+					} else {
+						out = append(out, v2.Filter{Type: filterType, Config: map[string]interface{}{"case": cid, "kind": "refused-by-its-creator", "n": k, "generation": gen}})
+					}
+				}
+			}
+			if pos < len(filters) {
+				out = append(out, filters[pos])
+			}
+		}
+		return out
+	}
+	plain := filters
+	filters = withBroken(0)
+	_ = plain
 	cs, err := mesh.NewCase(mesh.Opts{Down: c.Proto, Up: c.Proto, Hosts: []string{up.Addr}, StreamFilters: filters, Routers: routers(c.Proto, c.RetryOn),
 		Cluster: func(cl *v2.Cluster) { cl.LbType = lbType }})
 	if err != nil {
@@ -435,6 +473,22 @@ func execute(t ev.TB, c *chainCase) ([]string, []observed) {
 
 	for r := range obs {
 		obs[r].Token = tokens[r]
+	}
+	repush := func() {
+		gen := 0
+		if c.Repush == "touched" {
+			gen = 1
+		}
+		fs := withBroken(gen)
+		if err := cs.UpdateListener(func(ln *v2.Listener) { ln.StreamFilters = fs }); err != nil {
+			inconclusive(t, c, "listener update: %v", err)
+		}
+	}
+	repushHook = nil
+	if c.Repush != "" && c.RepushAt == 0 {
+		repush()
+	} else if c.Repush != "" {
+		repushHook = repush
 	}
 	if c.Proto == "Http1" {
 		driveH1(t, c, cs, lg, tokens, terminates, obs)
@@ -455,6 +509,9 @@ func execute(t ev.TB, c *chainCase) ([]string, []observed) {
 
 // ---------------------------------------------------------------- HTTP/1 client
 
+// repushHook, when set, re-delivers the listener configuration; the drivers call it before the second request.
+var repushHook func()
+
 func driveH1(t ev.TB, c *chainCase, cs *mesh.Case, lg *caseLog, tokens []string, terminates []bool, obs []observed) {
 	var cl *mesh.H1Client
 	defer func() {
@@ -468,6 +525,10 @@ func driveH1(t ev.TB, c *chainCase, cs *mesh.Case, lg *caseLog, tokens []string,
 		err  error
 	}
 	for r, rq := range c.Reqs {
+		if r == 1 && repushHook != nil {
+			repushHook() // the listener's configuration is delivered again between two requests
+			repushHook = nil
+		}
 		if cl == nil {
 			var err error
 			if cl, err = mesh.DialH1(cs.Addr); err != nil {
